@@ -314,7 +314,20 @@ pub fn lincode_mutations<F: PrimeField>(pf: &Vec<MProof<F>>, other: &Vec<MProof<
         }
         // columns: entries of the first / last column
         let nc = pf[k].opening.columns.len();
-        let mut cpos = vec![0usize, nc.saturating_sub(1)];
+        // positions: all of them for short proofs; otherwise the ends plus the first position that
+        // repeats an earlier leaf index (indices are drawn with replacement)
+        let mut cpos: Vec<usize> = if nc <= 40 { (0..nc).collect() } else { vec![0usize, nc.saturating_sub(1)] };
+        if nc > 40 {
+            'outer: for j in 1..nc.min(pf[k].opening.paths.len()) {
+                for i in 0..j {
+                    if pf[k].opening.paths[i].leaf_index == pf[k].opening.paths[j].leaf_index {
+                        cpos.push(j);
+                        break 'outer;
+                    }
+                }
+            }
+        }
+        cpos.sort();
         cpos.dedup();
         for j in cpos.iter().copied().filter(|j| *j < nc) {
             let col = &pf[k].opening.columns[j];
